@@ -196,7 +196,7 @@ fn handle_kinds(repr: u8) -> &'static [u8] {
 fn ops_for(h: u8) -> &'static [u8] {
     match h {
         1 => &[0, 2, 4, 5, 6, 3, 12],       // &Bytes: clone through it, read, is_unique, then drop / convert the clone
-        2 => &[2, 8, 9, 4, 11],             // BytesMut half
+        2 => &[2, 8, 9, 4, 11, 6],          // BytesMut half (6 = Into<Vec<u8>> of the BytesMut)
         _ => &[1, 2, 3, 4, 5, 6, 7, 10, 12], // own Bytes
     }
 }
@@ -269,6 +269,10 @@ pub fn curated() -> Vec<Program> {
         // a frozen half dropped on one thread while the other reclaims and overwrites
         p(2, false, vec![(4, vec![2, 4]), (2, vec![9, 8, 2])], vec![]),
         p(2, false, vec![(4, vec![2, 4]), (2, vec![8, 2])], vec![]),
+        // a BytesMut half converted into a Vec (copying while the frozen half lives) while the frozen half is dropped / converted elsewhere
+        p(2, false, vec![(4, vec![2, 4]), (2, vec![6])], vec![]),
+        p(2, false, vec![(4, vec![5, 2]), (2, vec![2, 6])], vec![]),
+        p(2, false, vec![(0, vec![4]), (2, vec![6]), (4, vec![4])], vec![]),
         // two competing Vec::from / try_into_mut on the last two references
         p(1, false, vec![(0, vec![2, 6]), (4, vec![2, 6])], vec![]),
         p(1, false, vec![(0, vec![5, 2]), (4, vec![5, 2])], vec![]),
